@@ -250,7 +250,6 @@ type c15Case struct {
 	faults    map[string]bool
 	shape     []string
 	lastFlush string // error class of the most recent Flush
-	diverged  bool   // multi only: a message with a refused write went through Flush, so the destinations may hold different bytes
 }
 
 func (cs *c15Case) envs() string {
@@ -364,8 +363,6 @@ func (cs *c15Case) signature(kind string, chunkLen int, errc string, recv [][][]
 		return pre + stale // a message with a refused write was (partly) sent, or at least not discarded
 	case !cs.closed && kind == "flush" && !cs.dirty && cs.prevDirty && cs.multi && glued:
 		return pre + stale // the message after one with a refusal arrived behind stale bytes
-	case !cs.closed && cs.multi && cs.diverged:
-		return pre + stale // destinations that were not flushed after a refusal still hold the abandoned bytes
 	}
 	return pre + kind + "-" + cs.stateClass(chunkLen)
 }
@@ -469,9 +466,6 @@ func (cs *c15Case) doFlush() {
 	cs.ask("flush", envs, -1, 0, err, recv)
 	cs.lastFlush = c15ErrClass(err)
 	if !cs.closed {
-		if cs.multi && cs.dirty {
-			cs.diverged = true
-		}
 		cs.prevDirty = cs.dirty
 		cs.cur, cs.dirty = nil, false
 	}
@@ -876,7 +870,7 @@ func namesToken(ns []string) string {
 
 func suiteC15E2E(c *Ctx) {
 	c.Cov.Rule = "one scenario = a real m3 reporter (m3.NewReporter; Compact or Binary; 1 or 2 HostPorts) on loopback sinks: 0-2 small batches, then a batch that cannot fit into one datagram " +
-		"(oversize-metric: one counter with a 70000-byte tag value; oversize-batch: MaxPacketSizeBytes=200000 and ~80-120KB of counters in one batch), then 1-3 small batches, reporter.Flush() after each, Close at the end; " +
+		"(oversize-metric: one counter with a 70000-byte tag value; oversize-batch: MaxPacketSizeBytes=200000 and 80-180KB of counters with names of random length in one batch, so that the refused write is a name, a field header, a varint or a tag depending on the scenario), then 1-3 small batches, reporter.Flush() after each, Close at the end; " +
 		"every datagram at every sink is decoded as exactly one thrift emitMetricBatchV2 message (else `garbled`) and the judged names (prefix c15.) are compared with the batches that fit; " +
 		"clean scenarios (no oversize batch) are the control. nontrivial = the scenario contains a batch that cannot fit; distinct by (kind, protocol, hosts, batch sizes)"
 	n := c.N(10, 60)
@@ -947,7 +941,19 @@ func suiteC15E2E(c *Ctx) {
 				emit(eb, strings.Repeat("v", 70000))
 				batches = append(batches, eb)
 			case "oversize-batch":
-				eb := mk(bi, r.Range(400, 560), 180) // 400..560 counters of ~210 bytes each: 85..120 KB in one emit
+				// counters with names of random length until the batch is 80..110 KB by a low estimate
+				// (well under MaxPacketSizeBytes, so the reporter emits it as ONE message): the write that
+				// is refused is a name in some scenarios and a field header, varint or tag in others
+				var eb e2eBatch
+				target, est := r.Range(80000, 110000), 0
+				for j := 0; est < target; j++ {
+					nm := fmt.Sprintf("c15.s%d.b%d.m%d", i, bi, j)
+					for want := r.Range(20, 120); len(nm) < want; {
+						nm += "x"
+					}
+					eb.names = append(eb.names, nm)
+					est += len(nm) + 40
+				}
 				bi++
 				eb.fits = false
 				emit(eb, "")
